@@ -113,6 +113,7 @@ bool active() { return G.running && me != nullptr; }
 Task *self() { return me; }
 int self_id() { return me ? me->id : -1; }
 uint64_t now_us() { return G.now; }
+int64_t time_s() { return (int64_t) ((G.p.epoch0_us + G.now) / 1000000ULL); }
 uint64_t step() { return G.step; }
 uint64_t trace_hash() { return G.hash; }
 void hash_mix(const void *p, size_t n) { G.hash = fnv1a(G.hash, p, n); }
